@@ -42,6 +42,18 @@ def main():
     obs['live_registered_times_after_restart'] = sum(1 for w in Worker._active_children if w is live)
     if obs['live_registered_times_after_restart'] != 1:
         viol.append(f"restarted worker registered {obs['live_registered_times_after_restart']} times")
+    # L2c: a worker whose dead incarnation was pruned from the registry is registered again when it is restarted
+    # (otherwise graceful termination and autoclose never reach the new incarnation)
+    again = PersistentThreadWorker(fn)
+    again.wait(2)
+    list(Worker.active_children())          # prunes the dead incarnation
+    again.restart(timeout=2)
+    obs['restarted_after_prune_alive'] = again.is_alive()
+    obs['restarted_after_prune_registered'] = sum(1 for w in Worker._active_children if w is again)
+    if again.is_alive() and obs['restarted_after_prune_registered'] != 1:
+        viol.append(f"a worker restarted after its dead incarnation had been pruned is registered {obs['restarted_after_prune_registered']} times: "
+                    "active_children(), autoclose and the SIGTERM handler do not see the live worker")
+    again.terminate(timeout=1)
     # L3: autoclose leaves nothing alive, also when the block raises
     try:
         with autoclose_active_children():
